@@ -103,7 +103,9 @@ def run(pairs, wd, tag='corr', loader='cli', fuel=FUEL, public=False, expr=None,
             out[i] = {'kind': 'untranslatable', 'raw': str(e)}
             continue
         e = 'check_case %d rt%d ct%d p%d d%d i%d' % (fuel, i, i, i, i, i)
-        if expr:
+        if callable(expr):
+            e = expr(i, fuel, e)
+        elif expr:
             e = expr.format(i=i, fuel=fuel, check=e)
         cases.append((i, defs, e))
         summary = ('panic: %s' % result.get('panic')) if isinstance(result, dict) and 'panic' in result else \
